@@ -16,6 +16,7 @@ import (
 	"os"
 	"path/filepath"
 	"reflect"
+	"strconv"
 	"sort"
 	"strings"
 )
@@ -272,7 +273,7 @@ func (r *rw) post(n ast.Node) ast.Node {
 		}
 		if x.Body != nil && r.wantYield(x) {
 			r.st.yields++
-			call := &ast.ExprStmt{X: &ast.CallExpr{Fun: r.simSel("Yield")}}
+			call := &ast.ExprStmt{X: &ast.CallExpr{Fun: r.simSel("YieldFn"), Args: []ast.Expr{&ast.BasicLit{Kind: token.STRING, Value: strconv.Quote(x.Name.Name)}}}}
 			x.Body.List = append([]ast.Stmt{call}, x.Body.List...)
 		}
 		r.curFunc = ""
